@@ -20,6 +20,10 @@ import (
 )
 
 func main() {
+	if os.Getenv("VERIF_CHILD") != "" {
+		eng.ChildMain()
+		return
+	}
 	var (
 		engine   = flag.String("engine", "", "engine name")
 		tier     = flag.String("tier", "quick", "quick|thorough")
